@@ -175,11 +175,11 @@ PROPERTY_INFO = {
     "C04": info("exploration",
                 GEN_RULE + "non-trivial = values were destroyed by at least one of remove / clear / overwrite / Entry::remove / clone_from / world drop; distinct = distinct operation lists",
                 ["remove_live", "clear", "entry_add_overwrite", "entry_remove_present", "clone_from", "drop_world"],
-                ["remove_live", "clear", "entry_add_overwrite", "entry_remove_present", "clone_from", "drop_world", "clone", "crash_restore_from_snapshot"]),
+                ["remove_live", "clear", "entry_add_overwrite", "entry_remove_present", "clone_from", "drop_world", "clone", "crash_restore_from_snapshot", "corrupt_rejected_after_constructing_values", "corrupt_accepted", "fault_fired"]),
     "C05": info("exploration",
                 GEN_RULE + "non-trivial = the history grew or shrank column storage (reserve, shrink_to_fit, batch adoption, shape change); the arena auditor, red zones, poison and the dump/allocator cross-check run on every operation; distinct = distinct operation lists",
                 ["reserve", "shrink_to_fit", "extend", "entry_add_shape_change"],
-                ["reserve", "shrink_to_fit", "extend", "entry_add_shape_change", "world_has_empty_archetype", "query_mutating", "entries_sub_query", "ragged_batch_refused"]),
+                ["reserve", "shrink_to_fit", "extend", "entry_add_shape_change", "world_has_empty_archetype", "query_mutating", "entries_sub_query", "ragged_batch_refused", "corrupt_rejected_after_constructing_values", "corrupt_accepted", "fault_fired"]),
     "C06": info("exploration",
                 GEN_RULE + "non-trivial = at least one round trip or crash+restore of a non-empty world, or a mirrored lock-step operation; distinct = distinct operation lists",
                 ["roundtrip_with_nonempty_free_list", "lockstep_mirrored_op", "crash_restore_from_snapshot", "roundtrip_json", "roundtrip_tokens_compact", "roundtrip_tokens_readable", "roundtrip_tokens_compact_struct_as_seq", "roundtrip_json_value_sorted_keys"],
